@@ -45,6 +45,11 @@ def run(rep, tier, seed):
         scripts += ex
     for i in range(6 if tier == "quick" else 100):
         scripts.append(sessions.full_dir_session(rng, "root" if i % 3 else "chain"))
+    # directories of several dozen slots on volumes with larger sectors / clusters (a new directory cluster has to be cleared
+    # completely, whatever the sector size; the devices are stale in half of the runs)
+    big = [c for c in confs if c[0] in ("fat12-s1k", "fat12-s4k", "fat12-c2k", "fat16-c2k-1fat")]
+    for i in range(4 if tier == "quick" else 60):
+        scripts.append(sessions.dir_heavy_session(rng, big[i % len(big)], nfiles=rng.range(8, 16), fill=(209, 65, 229, 0)[(i // 4) % 4]))
     judged = sessions.run_judged(scripts, flags=("tree", "infos"), shards=16)
     nospace_judged = 0
     for jd in judged:
